@@ -6,6 +6,14 @@
 // identifier is the first-occurrence index of its PublicKey.String() (the firewall only tests
 // keys for equality).  Every sequence runs in well under a second, far inside the 1 h / 12 h
 // caching periods: cache expiry (real time) is out of scope and never exercised.
+//
+// Streams: corpus; "vec": EVERY answer vector over {Y,N,E} for 1..4 applications (3^k) crossed with
+// the cache state of the validated peer (none / positive / negative) and allow-list membership, each
+// followed by all-E probes (an all-E validation reads the caches without changing them: cached or
+// allowlisted peers are answered with no application consulted, an uncached peer fails at the
+// first application and nothing is remembered); "seqvec": every vector of 2..4 applications inside
+// a random sequence; "small": exhaustive short sequences for 1..2 applications; "rand".
+// The observable of every validation is (result, applications consulted in call order).
 package main
 
 import (
@@ -158,6 +166,10 @@ func run(in input, em *lib.Emitter, id string) {
 			lib.N(pid[st.Peer]), lib.List(ans), coqRes, lib.ListN(calls)))
 		outs = append(outs, map[string]interface{}{"peer": pid[st.Peer], "answers": st.Answers, "result": res, "calls": calls, "error": text})
 		em.Tally("result-" + res)
+		if y := strings.IndexByte(st.Answers, 'Y'); y >= 0 && strings.IndexByte(st.Answers, 'E') > y &&
+			!strings.Contains(st.Answers[:y], "E") && len(sc.calls) > 0 {
+			em.Tally("consulted-with-yes-before-err")
+		}
 		if prev, ok := seenPeer[pid[st.Peer]]; ok {
 			feat["revisit-after-"+prev] = true
 			if strings.Contains(st.Answers, "Y") && prev == "no" {
@@ -196,6 +208,37 @@ func run(in input, em *lib.Emitter, id string) {
 		In:         in,
 		Out:        outs,
 	})
+}
+
+// count picks the case count of a stream: the search tier (run automatically after a
+// model/implementation disagreement) is capped so that one round stays within minutes on a
+// loaded machine.
+func count(o lib.Opts, quick, thorough, search int) int {
+	if o.N > 0 {
+		return o.N
+	}
+	switch o.Tier {
+	case "thorough":
+		return thorough
+	case "search":
+		return search
+	}
+	return quick
+}
+
+// vectors returns every answer vector over {Y,N,E} of the given length.
+func vectors(k int) []string {
+	out := []string{""}
+	for i := 0; i < k; i++ {
+		var next []string
+		for _, v := range out {
+			for _, a := range "YNE" {
+				next = append(next, v+string(a))
+			}
+		}
+		out = next
+	}
+	return out
 }
 
 func scalar(r *lib.Rng) string { return fmt.Sprintf("%x", r.Bytes(32)) }
@@ -243,6 +286,46 @@ func main() {
 	run(input{P, nil, 1, []stepIn{{0, "Y"}, {1, "N"}, {2, "E"}, {0, "N"}, {1, "Y"}, {2, "Y"}, {2, "N"}}}, em, "corpus-three-peers")
 	run(input{[]string{P[0], P[0], P[1]}, []int{1}, 1, []stepIn{{0, "N"}, {2, "N"}}}, em, "corpus-same-key-two-objects")
 
+	run(input{P, nil, 2, []stepIn{{0, "YE"}, {0, "EE"}, {1, "NY"}, {1, "EE"}}}, em, "corpus-yes-then-error-admits-and-caches")
+	run(input{P, nil, 3, []stepIn{{0, "NYE"}, {0, "EEE"}, {1, "YEE"}, {1, "EEE"}, {2, "NEY"}, {2, "EEE"}}}, em, "corpus-stops-at-first-yes-or-error")
+
+	// --- every answer vector for 1..4 applications x cache state of the peer x allow-list membership,
+	// as a single validation on a policy prepared by at most one earlier validation, then cache probes
+	for k := 1; k <= 4; k++ {
+		allE, allN, allY := strings.Repeat("E", k), strings.Repeat("N", k), strings.Repeat("Y", k)
+		for vi, v := range vectors(k) {
+			for ci, prefix := range [][]stepIn{nil, {{0, allY}}, {{0, allN}}} {
+				steps := append([]stepIn{}, prefix...)
+				// peer 1 is allowlisted, peer 0 is not (cache state by the prefix), peer 2 is fresh
+				steps = append(steps, stepIn{1, v}, stepIn{0, v}, stepIn{0, allE}, stepIn{1, allE}, stepIn{2, allE})
+				run(input{P[:3], []int{1}, k, steps}, em, fmt.Sprintf("vec-%d-%d-%s", k, vi, []string{"none", "pos", "neg"}[ci]))
+			}
+		}
+	}
+	// --- every answer vector for 2..4 applications inside a random sequence over three peers, with a
+	// probe after every validation
+	for k := 2; k <= 4; k++ {
+		allE := strings.Repeat("E", k)
+		vs := vectors(k)
+		for vi, v := range vs {
+			r := rng.Fork(fmt.Sprintf("seqvec%d-%d", k, vi))
+			var allow []int
+			if r.Chance(1, 4) {
+				allow = []int{r.Intn(3)}
+			}
+			var steps []stepIn
+			add := func(peer int, a string) { steps = append(steps, stepIn{peer, a}, stepIn{peer, allE}) }
+			for i := r.Range(0, 3); i > 0; i-- {
+				add(r.Intn(3), vs[r.Intn(len(vs))])
+			}
+			add(r.Intn(3), v)
+			for i := r.Range(0, 3); i > 0; i-- {
+				add(r.Intn(3), vs[r.Intn(len(vs))])
+			}
+			run(input{P[:3], allow, k, steps}, em, fmt.Sprintf("seqvec-%d-%d", k, vi))
+		}
+	}
+
 	// --- exhaustive small scope: one application or two, two peers (one possibly allowlisted),
 	// every sequence of 3 validations over every answer vector
 	{
@@ -265,7 +348,7 @@ func main() {
 			for i := 0; i < c.slen; i++ {
 				total *= nStep
 			}
-			limit := o.Count(250, total)
+			limit := count(o, 250, total, 600)
 			perm := rng.Fork(fmt.Sprintf("small%d", ci)).Perm(total)
 			for k := 0; k < limit && k < total; k++ {
 				code := perm[k]
@@ -279,13 +362,16 @@ func main() {
 				if k%4 == 3 {
 					allow = []int{1}
 				}
+				// cache contents afterwards: all-E probes of both peers
+				allE := strings.Repeat("E", c.napps)
+				steps = append(steps, stepIn{0, allE}, stepIn{1, allE})
 				run(input{P[:2], allow, c.napps, steps}, em, fmt.Sprintf("small-%d-%d", ci, k))
 			}
 		}
 	}
 
 	// --- random sequences: a few peers revisited often, answers changing over time
-	nRand := o.Count(400, 4000)
+	nRand := count(o, 400, 4000, 800)
 	for i := 0; i < nRand; i++ {
 		r := rng.Fork(fmt.Sprintf("rand%d", i))
 		nPeers := r.Range(1, 6)
@@ -311,14 +397,20 @@ func main() {
 		if o.Tier != "quick" && r.Chance(1, 10) {
 			n = r.Range(15, 40)
 		}
-		steps := make([]stepIn, n)
-		for j := range steps {
-			steps[j] = stepIn{r.Intn(nPeers), answers(r, napps, pErr)}
+		probe := napps > 0 && r.Chance(1, 3) // read the caches after every validation
+		var steps []stepIn
+		for j := 0; j < n; j++ {
+			st := stepIn{r.Intn(nPeers), answers(r, napps, pErr)}
+			steps = append(steps, st)
+			if probe {
+				steps = append(steps, stepIn{st.Peer, strings.Repeat("E", napps)})
+			}
 		}
 		run(input{peers, allow, napps, steps}, em, fmt.Sprintf("rand-%d", i))
 	}
 	em.Close("a case is one sequence of Validate calls on one AnyApplicationPolicy with scripted applications; "+
 		"distinct by (allow-list, number of applications, sequence of (peer, answer vector)); non-trivial when "+
 		"some peer is validated again after an earlier validation of the same peer consulted the applications "+
-		"(cache reuse or error-not-remembered is exercised)", nil)
+		"(cache reuse or error-not-remembered is exercised; the all-E probes that read the caches count); the "+
+		"observable of every validation is (result, applications consulted in call order)", nil)
 }
